@@ -375,6 +375,24 @@ func gcScenarios(prop, tier string) []*SeqScenario {
 			}
 			scs = append(scs, sc)
 		}
+		// States that the short preambles cannot reach (C04 / C13 only, the
+		// bounded-progress oracle of C11 would need hundreds of cycles):
+		// a freelist larger than one 4 KiB read buffer, and a restart with
+		// flushed freelist entries that no GC cycle has consumed yet.
+		if prop == "C04" || prop == "C13" {
+			for _, lp := range largeStatePreambles() {
+				if lp.bulk && (c.PriFS == 1 || c.Primary == "cid") {
+					continue // hundreds of one-record files add nothing here
+				}
+				sc := &SeqScenario{Prop: prop, Name: "gc-" + lp.name, Cfg: c, Preamble: lp.ops, Alphabet: gcAlphabet(tier), Depth: lp.depth,
+					Setup: withLedger, Final: gcFinal, Nontrivial: gcNontrivial}
+				if prop == "C13" {
+					sc.Final, sc.Oracles = ledgerFinal, []string{"ledger"}
+					sc.Nontrivial = func(w *World, hist []Op) bool { return len(w.ledger.expected) > 0 }
+				}
+				scs = append(scs, sc)
+			}
+		}
 	}
 	return scs
 }
@@ -1402,4 +1420,31 @@ func c10CrashScenarios(tier string) []*CrashScenario {
 		}
 	}
 	return scs
+}
+
+type largePreamble struct {
+	name  string
+	ops   []Op
+	depth int
+	bulk  bool
+}
+
+func largeStatePreambles() []largePreamble {
+	P := func(k, v int) Op { return Op{Kind: OpPut, K: k, V: v} }
+	F := Op{Kind: OpFlush}
+	// 360 overwrites of two keys: 360 freelist entries = 4320 bytes, more
+	// than one 4096-byte buffer of the reader GC uses on the hand-over file
+	var bulk []Op
+	bulk = append(bulk, P(0, 1), P(1, 1), P(4, 1), F)
+	for i := 0; i < 360; i++ {
+		bulk = append(bulk, P(i%2, 1+(i/2+1)%2))
+		if i%120 == 119 {
+			bulk = append(bulk, F)
+		}
+	}
+	bulk = append(bulk, F)
+	return []largePreamble{
+		{"bulk-freelist", bulk, 1, true},
+		{"restart-with-pending-freelist", []Op{P(0, 1), P(1, 1), P(4, 1), F, P(0, 2), P(1, 2), F, {Kind: OpReopen, A: 0}}, 2, false},
+	}
 }
